@@ -26,8 +26,13 @@ def enc(v):
     return 1 if v is True else 0 if v is False else 2
 
 
+_SHARE = {"n": 0}
+
+
 def impl_obs(h: C.Hierarchy, s, t):
-    S, T = h.inst(s), h.inst(t)
+    _SHARE["n"] += 1
+    memo = {} if _SHARE["n"] % 2 else None      # every other pair shares equal subterm objects
+    S, T = h.inst(s, memo), h.inst(t, memo)
     return [enc(S.is_subtype(T)), enc(S.is_subtype(T, strict=True)),
             enc(S.match(T, subtype=True)), enc(S.match(T))]
 
